@@ -7,8 +7,10 @@ import (
 	"go/types"
 	"os"
 	"strconv"
+	"sync"
 
 	"golang.org/x/tools/go/ssa"
+	"golang.org/x/tools/go/ssa/ssautil"
 )
 
 func readOverlay(path string) (map[string][]byte, error) {
@@ -92,13 +94,45 @@ func SprintfCall(v ssa.Value) (string, []ssa.Value, bool) {
 	return f, args, true
 }
 
-// HexMD5Of: v == fmt.Sprintf("%x", md5.Sum(X)) → X.
-func HexMD5Of(v ssa.Value) (ssa.Value, bool) {
-	f, args, ok := SprintfCall(v)
-	if !ok || f != "%x" || len(args) != 1 || args[0] == nil {
+// HexOf: v is the lowercase hex rendering of X — fmt.Sprintf("%x", X) or hex.EncodeToString(X / X[:]) → X.
+func HexOf(v ssa.Value) (ssa.Value, bool) {
+	if f, args, ok := SprintfCall(v); ok {
+		if f != "%x" || len(args) != 1 || args[0] == nil {
+			return nil, false
+		}
+		return args[0], true
+	}
+	c, ok := Resolve1(v).(*ssa.Call)
+	if !ok || CalleeName(c.Common()) != "encoding/hex.EncodeToString" {
 		return nil, false
 	}
-	c, ok := Strip(args[0]).(*ssa.Call)
+	a := Strip(c.Call.Args[0])
+	if sl, isS := a.(*ssa.Slice); isS && sl.Low == nil && sl.High == nil {
+		// sum[:] of a local array holding the digest
+		if al, isA := sl.X.(*ssa.Alloc); isA {
+			var val ssa.Value
+			n := 0
+			for _, ref := range *al.Referrers() {
+				if st, isSt := ref.(*ssa.Store); isSt && st.Addr == ssa.Value(al) {
+					val = st.Val
+					n++
+				}
+			}
+			if n == 1 {
+				return val, true
+			}
+		}
+	}
+	return a, true
+}
+
+// HexMD5Of: v == fmt.Sprintf("%x", md5.Sum(X)) → X.
+func HexMD5Of(v ssa.Value) (ssa.Value, bool) {
+	a, ok := HexOf(v)
+	if !ok {
+		return nil, false
+	}
+	c, ok := Strip(a).(*ssa.Call)
 	if !ok || CalleeName(c.Common()) != "crypto/md5.Sum" {
 		return nil, false
 	}
@@ -425,8 +459,33 @@ func onceStored(al *ssa.Alloc) *ssa.Store {
 func ResolveOnce(v ssa.Value) ssa.Value {
 	for depth := 0; depth < 6; depth++ {
 		v = Strip(v)
+		if p, isP := v.(*ssa.Parameter); isP {
+			// parameter of an unexported function whose only use is one `go f(args)` statement (a goroutine body moved
+			// out of a function literal): the argument passed there
+			site := soleCallSite(p.Parent())
+			if _, isGo := site.(*ssa.Go); site != nil && isGo {
+				// (ordinary calls are handled by the normaliser, which inlines the helper; a `go f(args)` cannot be inlined)
+				args := site.Common().Args
+				for i, q := range p.Parent().Params {
+					if q == p && i < len(args) && !site.Common().IsInvoke() {
+						nv, unk := Resolve(args[i])
+						if !unk && len(nv) == 1 {
+							v = nv[0]
+						} else {
+							v = Strip(args[i])
+						}
+						goto next
+					}
+				}
+			}
+			return v
+		}
+	next:
 		u, ok := v.(*ssa.UnOp)
 		if !ok || u.Op != token.MUL {
+			if _, again := v.(*ssa.Parameter); again {
+				continue
+			}
 			return v
 		}
 		var al *ssa.Alloc
@@ -515,7 +574,9 @@ func (r *R) CheckChain(rule string, fn *ssa.Function, steps []ChainStep, final s
 			nd = finalDesc
 		}
 		a := s.Call.(ssa.Instruction)
-		ok := Before(a, next) && (a.Block() == next.Block() || a.Block().Dominates(next.Block()))
+		// every feasible path to `next` executes `a` first (reachability with infeasible merged-result edges pruned,
+		// rather than plain dominance: after a helper is inlined the continuation has several syntactic predecessors)
+		ok := MustPassFromEntry(fn, next, []ssa.Instruction{a})
 		if ok && ErrIndex(s.Call.Common()) >= 0 {
 			g, _ := Guard(fn, a, next, ErrNilC(s.Call))
 			ok = g
@@ -643,11 +704,11 @@ type HMACInfo struct {
 // HexHMACOf: v == fmt.Sprintf("%x", h.Sum(nil)) with h := hmac.New(ctor, key)
 // and only WriteString/Write calls on h in between.
 func HexHMACOf(v ssa.Value) (*HMACInfo, bool) {
-	f, args, ok := SprintfCall(v)
-	if !ok || f != "%x" || len(args) != 1 || args[0] == nil {
+	hx, ok := HexOf(v)
+	if !ok {
 		return nil, false
 	}
-	sum, ok := Strip(args[0]).(*ssa.Call)
+	sum, ok := Resolve1(stripIface(hx)).(*ssa.Call)
 	if !ok || bareName(CalleeName(sum.Common())) != "Sum" || !sum.Common().IsInvoke() {
 		return nil, false
 	}
@@ -872,5 +933,132 @@ func freeVarBinding(fv *ssa.FreeVar) ssa.Value {
 			}
 		}
 	})
+	return out
+}
+
+// ---------------------------------------------------------------------------
+// call-site index (per program): static call/go/defer sites of every function, and functions used as values
+
+type siteIndex struct {
+	sites map[*ssa.Function][]ssa.CallInstruction
+	asVal map[*ssa.Function]bool
+}
+
+var siteIndexes sync.Map // *ssa.Program → *siteIndex
+
+func callSiteIndex(prog *ssa.Program) *siteIndex {
+	if v, ok := siteIndexes.Load(prog); ok {
+		return v.(*siteIndex)
+	}
+	ix := &siteIndex{sites: map[*ssa.Function][]ssa.CallInstruction{}, asVal: map[*ssa.Function]bool{}}
+	for fn := range ssautil.AllFunctions(prog) {
+		for _, b := range fn.Blocks {
+			for _, in := range b.Instrs {
+				var callee *ssa.Function
+				if ci, ok := in.(ssa.CallInstruction); ok {
+					if g := ci.Common().StaticCallee(); g != nil {
+						callee = g
+						ix.sites[g] = append(ix.sites[g], ci)
+					}
+				}
+				var buf [8]*ssa.Value
+				for _, op := range in.Operands(buf[:0]) {
+					if g, ok := (*op).(*ssa.Function); ok && g != callee {
+						ix.asVal[g] = true
+					}
+				}
+			}
+		}
+	}
+	v, _ := siteIndexes.LoadOrStore(prog, ix)
+	return v.(*siteIndex)
+}
+
+// invalidateSiteIndex is called after the normaliser rewrote function bodies.
+func invalidateSiteIndex(prog *ssa.Program) { siteIndexes.Delete(prog) }
+
+// soleCallSite: fn is an unexported, non-closure function that is never used as a value and is called from
+// exactly one place; returns that site.
+func soleCallSite(fn *ssa.Function) ssa.CallInstruction {
+	if fn == nil || fn.Parent() != nil || fn.Object() == nil || fn.Object().Exported() || fn.Prog == nil {
+		return nil
+	}
+	ix := callSiteIndex(fn.Prog)
+	if ix.asVal[fn] || len(ix.sites[fn]) != 1 {
+		return nil
+	}
+	return ix.sites[fn][0]
+}
+
+// GoBodies: the functions fn starts as goroutines — function literals and named functions/methods alike.
+func GoBodies(fn *ssa.Function) []*ssa.Function {
+	seen := map[*ssa.Function]bool{}
+	var out []*ssa.Function
+	for _, f := range append([]*ssa.Function{fn}, Closures(fn)...) {
+		allInstrs(f, func(in ssa.Instruction) {
+			g, ok := in.(*ssa.Go)
+			if !ok {
+				return
+			}
+			var callee *ssa.Function
+			if mc, isMC := g.Call.Value.(*ssa.MakeClosure); isMC {
+				callee, _ = mc.Fn.(*ssa.Function)
+			} else {
+				callee = g.Call.StaticCallee()
+			}
+			if callee != nil && len(callee.Blocks) > 0 && !seen[callee] {
+				seen[callee] = true
+				out = append(out, callee)
+			}
+		})
+	}
+	return out
+}
+
+// ClosuresAndGoBodies: closures of fn plus named functions it starts with `go` (a goroutine body moved out of a
+// function literal into a method is still the same goroutine).
+func ClosuresAndGoBodies(fn *ssa.Function) []*ssa.Function {
+	out := Closures(fn)
+	seen := map[*ssa.Function]bool{}
+	for _, c := range out {
+		seen[c] = true
+	}
+	for _, g := range GoBodies(fn) {
+		if !seen[g] && g.Parent() == nil {
+			seen[g] = true
+			out = append(out, g)
+			out = append(out, Closures(g)...)
+		}
+	}
+	return out
+}
+
+// ClosuresAndHelpers: the function literals of fn plus the unexported functions of the same package they (or fn)
+// call directly, with those functions' own literals — the places a block of fn's code can have been moved to by
+// "extract method" when the extracted body cannot be inlined (it contains function literals or defers).
+func ClosuresAndHelpers(fn *ssa.Function) []*ssa.Function {
+	out := Closures(fn)
+	seen := map[*ssa.Function]bool{fn: true}
+	for _, c := range out {
+		seen[c] = true
+	}
+	for _, f := range append([]*ssa.Function{fn}, Closures(fn)...) {
+		allInstrs(f, func(in ssa.Instruction) {
+			ci, ok := in.(ssa.CallInstruction)
+			if !ok {
+				return
+			}
+			g := ci.Common().StaticCallee()
+			if g == nil || seen[g] || len(g.Blocks) == 0 || g.Parent() != nil || g.Object() == nil || g.Object().Exported() || g.Pkg != fn.Pkg {
+				return
+			}
+			if soleCallSite(g) == nil {
+				return // shared helpers have a meaning of their own
+			}
+			seen[g] = true
+			out = append(out, g)
+			out = append(out, Closures(g)...)
+		})
+	}
 	return out
 }
